@@ -1,6 +1,6 @@
 """Per-structure pipelines (E1 model check, E2 replay, E3 traces, P adjudication) and the
 property registry."""
-import json, os, re, time
+import json, os, re, shutil, time
 import vlib
 from vlib import log, ToolError
 
@@ -66,6 +66,19 @@ def sample_records(ctx, records, n=2, prefer=None):
 
 # ------------------------------------------------------------------------------------------
 def build_replay(ctx, rj, idx):
+    if rj.get("kind") == "hang":
+        d = ctx.sub("replay")
+        path = os.path.join(d, "%s_%d.json" % (ctx.pid, idx))
+        files = {}
+        args = list(rj["vh_args"])
+        for i, a in enumerate(args):
+            if a in ("--in", "--gen") and i + 1 < len(args) and os.path.exists(args[i + 1]):
+                keep = os.path.join(d, "%s_%d_input_%s" % (ctx.pid, idx, os.path.basename(args[i + 1])))
+                shutil.copyfile(args[i + 1], keep)
+                args[i + 1] = keep
+        with open(path, "w") as f:
+            json.dump({"property": ctx.pid, "clause": rj["clause"], "kind": "hang", "vh_args": args, "hang": rj.get("hang"), "files": files}, f, indent=1)
+        return path
     hdr, recs = vlib.load_records(rj["records"], [rj["tid"]])
     rec = recs.get(rj["tid"])
     sc = None
@@ -121,8 +134,32 @@ def run_replay(ctx, path):
 SPECIAL_REPLAY = {}
 
 
+def hang_replay(ctx, rp):
+    """Re-run the harness command that was ended by the watchdog."""
+    w = ctx.sub("replay_run")
+    args = list(rp["vh_args"])
+    for i, a in enumerate(args):
+        if a in ("--out", "--mout", "--hist") and i + 1 < len(args):
+            args[i + 1] = os.path.join(w, os.path.basename(args[i + 1]))
+    stats = vlib.vh(args, w)
+    if stats.get("hang"):
+        print("VIOLATION property=%s replay=%s" % (ctx.pid, rp["_path"]), flush=True)
+        return 1
+    log("replay: the harness command returned normally this time")
+    return 0
+
+
+SPECIAL_REPLAY["hang"] = hang_replay
+
+
 def finish(ctx, wall, write=True):
     pid = ctx.pid
+    for h in vlib.HANGS:
+        if not h["handled"]:
+            h["handled"] = True
+            ctx.rejects.append({"tid": h["hang"].get("tid", 0), "kind": "hang", "vh_args": h["args"], "hang": h["hang"], "sig": "hang",
+                                "clause": PROPS[pid].get("hang_clause", pid + ".total: a call did not return (hang)"),
+                                "records": "hang.ndjson", "s": h["hang"].get("s", ""), "pspec": "", "pconsts": {}})
     tool = [r for r in ctx.rejects if r["clause"].startswith("TOOL.")]
     if tool:
         raise ToolError("harness bookkeeping rejected by the P-spec (tool bug, not a verdict): %s" % tool[:3])
@@ -1145,6 +1182,9 @@ SPECIAL_REPLAY["sizing"] = sizing_replay
 
 def handle_hang(ctx, stats, records, tag, pspec, hist=None):
     for h in stats.get("hang", []):
+        for g in vlib.HANGS:
+            if g["hang"] is h:
+                g["handled"] = True
         ctx.rejects.append({"tid": h.get("tid", 0), "clause": PROPS[ctx.pid].get("hang_clause", ctx.pid + ".total: a call did not return (hang)"),
                             "records": records, "s": tag, "pspec": pspec, "pconsts": {}, "hist": hist, "scenarios": None,
                             "sig": "hang"})
